@@ -58,7 +58,7 @@ class Pool:
         code = f"import sys; sys.path.insert(0, {repo_src!r}); from gwf.backends.local import start_cluster; start_cluster({self.dir!r}, {cores}, '127.0.0.1', {self.port})"
         self.proc = subprocess.Popen(["/venv/bin/python", "-c", code], stdin=subprocess.DEVNULL, stdout=subprocess.DEVNULL, stderr=subprocess.DEVNULL, start_new_session=True)
         t0 = time.time()
-        while time.time() - t0 < 10:
+        while time.time() - t0 < 90:
             try:
                 socket.create_connection(("127.0.0.1", self.port), timeout=0.3).close()
                 return
